@@ -95,7 +95,9 @@ fn hostile_payload(rng: &mut StdRng, class: usize) -> Vec<u8> {
             valid_request(["/p.q.Greeter/SayHello", "/c17.Probe/OptJ", "/Greeter/Say", "/c17.Probe/UnitJ"][rng.gen_range(0..4)], &[("hostile", "1")], text.as_bytes())
         }
         22 => valid_request(["/Greeter/SayHello", "/c17.Probe/OptB", "/Greeter/Say", "/Greeter/NoSuchMethod", "/c17.Probe/"][rng.gen_range(0..5)],
-                            &[("hostile", "1")], &[[0xffu8; 3].to_vec(), b"{".to_vec(), vec![], vec![7; 5000]][rng.gen_range(0..4)]),
+                            &[("hostile", "1")], &[[0xffu8; 3].to_vec(), b"{".to_vec(), vec![], vec![7; 5000],
+                              // bincode: a = 1, then a string whose length prefix claims 2^64 - 1 / 2^63 bytes
+                              [&[1u8, 0, 0, 0][..], &[0xff; 8][..], b"abc"].concat(), [&[1u8, 1, 0, 0, 0][..], &[0, 0, 0, 0, 0, 0, 0, 0x80][..]].concat()][rng.gen_range(0..6)]),
         _ => valid_request(&format!("/{}", "é".repeat(rng.gen_range(30..120))), &[("hostile", "1")], b""), // long multi-byte route
     }
 }
